@@ -932,15 +932,18 @@ DET_SAMPLE = {'quick': 24, 'thorough': 100}
 RULE = (
     "A run is one forked, pristine process pushing one seeded text (seeded "
     "SQL grammar in ASCII/Latin/Cyrillic/CJK alphabets with or without "
-    "backslashes, corpus scripts, the repo's test files; no CR) in one "
-    "encoding able to represent it through 3-6 front-end items: bytes + "
-    "encoding, UTF-8 bytes, non-UTF-8 bytes without encoding (expected: "
-    "Latin-1), StringIO, a text stream over a simulated raw device, or the "
-    "sqlformat command line reading a simulated file/stdin and writing "
-    "simulated stdout/-o file, with seeded chunk boundaries (biased into "
-    "multi-byte characters), EINTR, short writes, and - in the fault "
-    "population (every third run) - reported I/O errors at open/read/write/"
-    "close. Oracle: every item equals the str-path result from a pristine "
+    "backslashes, multi-line tokens, encoding-signature look-alikes, exotic "
+    "separators; corpus scripts; the repo's test files; texts over 8192 "
+    "characters; CR only through the forms without a text-mode file layer) "
+    "in one encoding able to represent it through 3-6 front-end items: "
+    "bytes + encoding, UTF-8 bytes, non-UTF-8 bytes without encoding "
+    "(expected: Latin-1), StringIO, a TextIOWrapper over a simulated raw "
+    "device, a hand-written short-read text stream, or the sqlformat "
+    "command line reading a simulated file/stdin and writing simulated "
+    "stdout (pipe or terminal) / -o file (also in place, also "
+    "pre-existing), with seeded chunk boundaries (biased into multi-byte "
+    "characters), EINTR, short writes, and - in the fault population "
+    "(every third run) - reported I/O errors at open/read/write/close. Oracle: every item equals the str-path result from a pristine "
     "process; under an injected error the item must fail visibly or still "
     "be exact. Non-trivial item: text has non-ASCII characters, or the "
     "channel saw >= 2 raw operations, or a fault fired. Distinct: distinct "
